@@ -35,6 +35,23 @@ func H_C07_dict_qualkeys() {
 	verifDeterministic("file", buf.String())
 }
 
+// values that are qualified identifiers of packages first mentioned in the Dict: the values are
+// rendered in key order, so the alias numbering does not follow the iteration order
+func H_C07_dict_qualvalues() {
+	impSummaries()
+	f := NewFile("p")
+	f.NoFormat = true
+	p0, p1 := leadPath(0), leadPath(1)
+	k0, k1 := &leadCode{id: "k0", lead: "a"}, &leadCode{id: "k1", lead: "b"}
+	verifAssume(!nondetBool("null_k0") && !nondetBool("null_k1"))
+	d := Dict{k0: Qual(p0, "A"), k1: Qual(p1, "B")}
+	f.Add(Id("T").Values(d))
+	buf := &bytes.Buffer{}
+	err := f.Render(buf)
+	verifAssert(err == nil, "no error")
+	verifDeterministic("file", buf.String())
+}
+
 func H_C07_tag() {
 	m := nondetChoice("m", c07M()+1)
 	items := map[string]string{}
